@@ -37,6 +37,21 @@ EXC = {
 }
 
 
+BOUNDS_EXC = {
+    ("<tuple_key::TupleKeyIterator as core::iter::traits::iterator::Iterator>::next", "range"): (1,
+        "`&self.buf[start..limit]`: start and limit are snapshots of self.offset before and after a loop that only increments it, each "
+        "increment guarded by offset < buf.len() (the invariant offset <= buf.len() of every write is proved by the index-write rule)"),
+    ("tuple_key2::decode_big_endian_payload", "range"): (1,
+        "`bytes[8 - payload.len()..]` on a [u8; 8]: callers pass take_payload(len) with len = tag - BASE for a tag matched against a 9-wide "
+        "range (unsigned_len / signed_*_len, widths checked by C16.3), so payload.len() <= 8"),
+    ("tuple_key::TupleKey::field_number", "range"): (2,
+        "`buf[0..sz]` on a [u8; 10] with sz = v64::pack_sz(), which is at most 10 for every u64 (encode side, reached from parse_next_tag "
+        "with schema-provided arguments)"),
+    ("tuple_key::TupleKeyParser::parse_next_tag", "range"): (1,
+        "`&buf[0..sz]` with (buf, sz) returned by TupleKey::field_number: a [u8; 10] and a v64::pack_sz() <= 10"),
+}
+
+
 def c161(ctx):
     R = "C16.1"
     ctx.declare(R, "decoding arbitrary bytes returns an error, never an explicit panic")
@@ -57,6 +72,12 @@ def c161(ctx):
     fns = [ctx.prog.fns[k] for k in seen if k in ctx.prog.fns and ctx.prog.fns[k].crate in ("tuple_key", "tuple_key2")]
     n = K.panic_audit(ctx, R, fns, EXC)
     ctx.ok(R, "tuple_key", "audited %d functions reachable from %d decoder entry points; %d explicit panic constructs examined" % (len(fns), len(entries), n))
+    # implicit panics: every index / range-slice expression of the decoders is in range
+    ctx.declare(R + "b", "the decoders never index a buffer beyond the length a dominating comparison established for that same buffer")
+    inv = K.le_len_invariant(ctx, R + "b", r"^tuple_key2::TupleKeyParser$", "offset", "bytes", ("tuple_key2",), floor=3)
+    inv += K.le_len_invariant(ctx, R + "b", r"^tuple_key::TupleKeyIterator$", "offset", "buf", ("tuple_key",), floor=2)
+    nb, pb = K.bounds_audit(ctx, R + "b", fns, BOUNDS_EXC, invariants=inv)
+    ctx.floor(R + "b", "index / slice sites in the decoders", nb, 4)
 
 
 def c162(ctx):
